@@ -98,6 +98,10 @@ def findings_opt():
     import json as _json, os as _os
     fj = _os.path.join(_os.path.dirname(_os.path.abspath(__file__)), "fixed_json", "F10_nested_try_optimiser.json")
     out.append(_json.load(open(fj)))
+    # F11: a function that stores a String branch in a Union(t1: Integer, t2: String) variable and then reads .t1 (guarded or
+    # never called): at -Q2+ copy propagation builds (Cast BInt (Arr Char ...)) and foamAudit aborts with "Bad type"
+    fj = _os.path.join(_os.path.dirname(_os.path.abspath(__file__)), "fixed_json", "F11_union_other_branch_cast.json")
+    out.append(_json.load(open(fj)))
     return out
 
 
